@@ -25,6 +25,9 @@ def history_check(prop, tier, seed, shapes, monitors, modules, profiles, p_inval
     # the same histories dispatched through the generic traits (SoAVec / SoASlice / SoASliceMut): the traits are the vector too
     tr = [gen.to_trait(s) for s in (b[::5] + r[::2])]
     suites.append(run_suite(prop, tr, profiles, monitors, "trait-dispatch"))
+    # long vectors (around and beyond 64 elements: machine-word and chunk boundaries of anything that packs per-element flags)
+    big = gen.vec_random(shapes, 24 if tier == "quick" else 400, 8, seed + 11, p_invalid=p_invalid, max_len=150, start=(60, 135))
+    suites.append(run_suite(prop, big, profiles, monitors, "long"))
     if prop == "C03":
         # every other API that moves ownership: RefMut::replace, pointer writes, writes through views and iterators
         L = min(z["L"], 4)
